@@ -3,7 +3,7 @@
 cd "$(dirname "$0")/.."
 id=$1
 for x in ${LETTERS:-A B}; do
-  l=$(echo $x | tr 'ABCDEFGHIJ' 'abcdefghij')
+  l=$(echo $x | tr 'ABCDEFGHIJKL' 'abcdefghijkl')
   [ -f /tmp/wt_$id/seeded_$x.diff ] || continue
   tools/seedcheck.py --prop $id --name ${id}_$l --patch /tmp/wt_$id/seeded_$x.diff --demo /tmp/wt_$id/seeded_${x}_demo.py --note /tmp/wt_$id/seeded_$x.txt ${2:+--checks $2} 2>&1 | grep -v WARN | /venv/bin/python -c "
 import sys,json
